@@ -640,6 +640,7 @@ func TestVerifC19DeviceReplay(t *testing.T) {
 		dead := false
 		sawVF, sawMultiType, sawMultiDev, sawShareDev, sawDup, sawTerminated, sawPodFinished, sawSelfEvent, sawLate, sawResv, sawID := false, false, false, false, false, false, false, false, false, false, false
 		maxLive, checks := 0, 0
+		sawDeleted := false
 
 		bound := func() []types.UID {
 			var out []types.UID
@@ -853,6 +854,7 @@ func TestVerifC19DeviceReplay(t *testing.T) {
 				deletedHow[persisted[u].key()] = how
 				delete(persisted, u)
 				delete(model, u)
+				sawDeleted = true
 				hist = append(hist, fmt.Sprintf("delete %s (%s)", u, how))
 			},
 			// A pod that finishes (phase Succeeded/Failed) leaves the scheduler's pod informer, which carries the field
@@ -933,6 +935,7 @@ func TestVerifC19DeviceReplay(t *testing.T) {
 		c.ClassIf(sawDup, "duplicate-or-noop-event")
 		c.ClassIf(sawTerminated, "finished-reservation-persisted")
 		c.ClassIf(sawPodFinished, "pod-finished(delivered-as-delete)")
+		c.ClassIf(sawDeleted, "object-deleted")
 		c.ClassIf(sawSelfEvent, "live-saw-own-bind-event")
 		c.ClassIf(sawLate, "pod-event-before-device-report")
 		c.ClassIf(sawResv, "reservation-object-persisted")
